@@ -217,16 +217,19 @@ ENTRY = {
                             dict(a='fvec', b='num', n='int:n', reps='int:m')],
     'grid.ind_qtt_to_tt': [dict(I_qtt='I[m,2d]', q=L(2)),
                            dict(I_qtt='i[2d]', q=L(2))],
-    'grid.ind_to_poi': [dict(I='I[m,d]', a='num', b='num', n='int:n'),
+    'grid.ind_to_poi': [dict(I='i[d]', a='fvec', b='fvec', n='i[d]'),
+                        dict(I='I[m,d]', a='num', b='num', n='int:n'),
                         dict(I='i[d]', a='fvec', b='fvec', n='shape',
                              kind=L('cheb')),
                         dict(I='I[m,d]', a='fvec', b='fvec', n='shape',
                              kind=L('cheb'))],
     'grid.ind_tt_to_qtt': [dict(I='I[m,d]', n=L(8)), dict(I='i[d]', n=L(8))],
-    'grid.poi_scale': [dict(X='f[m,d]', a='num', b='num'),
+    'grid.poi_scale': [dict(X='f[d]', a='fvec', b='fvec'),
+                       dict(X='f[m,d]', a='num', b='num'),
                        dict(X='f[d]', a='fvec', b='fvec', kind=L('cheb')),
                        dict(X='f[m,d]', a='fvec', b='fvec', kind='pair')],
-    'grid.poi_to_ind': [dict(X='f[m,d]', a='num', b='num', n='int:n'),
+    'grid.poi_to_ind': [dict(X='f[d]', a='fvec', b='fvec', n='i[d]'),
+                        dict(X='f[m,d]', a='num', b='num', n='int:n'),
                         dict(X='f[d]', a='fvec', b='fvec', n='shape',
                              kind=L('cheb')),
                         dict(X='f[m,d]', a='fvec', b='fvec', n='shape',
@@ -407,10 +410,12 @@ def build(spec, name, d, label=True):
         return FLOAT(deg={spec[4:]: _F(1)})   # a length (box bound)
     if spec == 'rel':
         from fractions import Fraction as _F
-        return FLOAT(unit=_F(0))      # relative (dimensionless) accuracy
+        from .poly import Lin as _L
+        return FLOAT(unit=_F(0), lg=_L(0))  # relative (dimensionless) accuracy
     if spec == 'abs':
         from fractions import Fraction as _F
-        return FLOAT(unit=_F(1))      # absolute accuracy, in data units
+        from .poly import Lin as _L
+        return FLOAT(unit=_F(1), lg=_L(0))  # absolute accuracy, in data units
     if spec.startswith('num:'):
         return num(spec[4:])
     if spec.startswith('int:'):
